@@ -140,8 +140,10 @@ CLAIMED = {
              "sum_i d_i P_i for all signed digits within the bucket count (0 skipped, negatives subtract); c doublings per "
              "chunk = Horner in base 2^c; recombination of all chunk totals into one MSM with digits sum_j 2^(cj) d_ij; "
              "additivity over any split of the point list; limb level: the selectors of partitionScalars (index, shift, "
-             "truncated mask, multi-word select) extract exactly bits [c*chunk, c*chunk+c) for every 1<=c<=64 and value < 2^256. "
-             "PARTIAL: the packed re-encoding of signed digits and its read-back, the cost-model choice of c and splits, and "
+             "truncated mask, multi-word select) extract exactly bits [c*chunk, c*chunk+c) for every 1<=c<=64 and value < 2^256; "
+             "the whole per-scalar loop: packed limbs (OR of fields, truncation, multi-word writes, msb flag) read back by the "
+             "chunk processor are the signed digits of the arithmetic recoding, no carry left, for every 2<=c<=64 and canonical "
+             "scalar. PARTIAL: final assembly msmInner = sum s_i P_i, smaller last bucket array, choice of c and splits, and "
              "the Montgomery flag are tied by correspondence "
              "only (MultiExp/MultiScalar for sizes 0..4096 x task counts, each implemented c with and without first-chunk "
              "split and partitionScalars' packed limbs through hooks, watchdog for termination).",
